@@ -1,5 +1,167 @@
-/- Lock-step oracle driver (stub: replaced when the model is built). -/
+/-
+`oracle unbound`: lock-step oracle for `pipe.New` over the pump network `Golem.Go.Unbound`
+(the very successor functions the theorems of Props/C08 are about).
+
+line  `<idx> stage=New cap=<n> | <moves> || <observations>`  →  `<idx> ok` / `<idx> MISMATCH …`
+
+moves: `s<v>` send, `c0` close by the sender, `r0` receive, `x` cancel, `z` goroutine census,
+`b<m>,<m>,…` a burst of those moves made back to back (the pump may or may not move in between;
+quiescence is awaited, and the channel lengths observed, only after the last one).
+observation tokens: `i:[len in;len eg]`, then per move `<move>:<result>[len in;len eg]`.
+
+The engine keeps the SET of model states compatible with the observations so far; after every
+environment move the set is closed under process moves until quiescence (every `select` choice).
+-/
+import Std.Data.HashSet
+import Golem.Go.Unbound
 import Golem.Driver.Util
 namespace Golem.Driver.Unbound
-def main : IO Unit := IO.eprintln "oracle: no driver for Unbound yet"
+open Golem.Go Golem.Go.Unbound Golem.Driver
+
+def showPc : Pc Int → String
+  | .main => "M" | .mainGot x => s!"Mg{x}" | .mainSent => "Ms"
+  | .drain => "D" | .drainGot x => s!"Dg{x}" | .closeIn => "C"
+  | .range => "R" | .rangeGot x => s!"Rg{x}" | .flush => "F" | .flushSent => "Fs"
+  | .closeEg => "E" | .exited => "Z"
+
+def showChan (c : Chan Int) : String := showInts c.buf ++ (if c.closed then "!" else "")
+
+/-- dynamic part of a state (history variables do not influence the future) -/
+def key (p : Net Int) : String :=
+  s!"{showPc p.pc}|{showChan p.inp}|{showChan p.eg}|{showInts p.mq}|{p.cancelled}|{p.panicked}"
+
+def lens (p : Net Int) : String := s!"[{p.inp.buf.length};{p.eg.buf.length}]"
+
+/-- quiescent states reachable by process moves from `init` (every interleaving) -/
+partial def closure (init : List (Net Int)) : List (Net Int) := Id.run do
+  let mut seen : Std.HashSet String := {}
+  let mut work := init
+  let mut quiet : List (Net Int) := []
+  let mut fuel := 2000000
+  while !work.isEmpty && fuel > 0 do
+    fuel := fuel - 1
+    match work with
+    | [] => pure ()
+    | p :: rest =>
+      work := rest
+      let k := key p
+      if seen.contains k then continue
+      seen := seen.insert k
+      let nx := procNext p
+      if nx.isEmpty then quiet := p :: quiet
+      else work := nx ++ work
+  return quiet
+
+/-- every state reachable by process moves (quiescent or not), the given ones included -/
+partial def reachAll (init : List (Net Int)) : List (Net Int) := Id.run do
+  let mut seen : Std.HashSet String := {}
+  let mut work := init
+  let mut all : List (Net Int) := []
+  let mut fuel := 2000000
+  while !work.isEmpty && fuel > 0 do
+    fuel := fuel - 1
+    match work with
+    | [] => pure ()
+    | p :: rest =>
+      work := rest
+      let k := key p
+      if seen.contains k then continue
+      seen := seen.insert k
+      all := p :: all
+      work := procNext p ++ work
+  return all
+
+def showObs : Obs Int → String
+  | .ok => "ok" | .full => "full" | .value v => s!"v{v}" | .empty => "empty" | .closed => "closed" | .nope => "nope"
+
+def parseMove (m : String) : Option (Sum (Move Int) String) :=
+  let body := (m.drop 1).toString
+  match m.toList.headD ' ' with
+  | 's' => body.toInt?.map fun v => .inl (.send v)
+  | 'c' => if body == "0" then some (.inl .close) else none
+  | 'r' => if body == "0" then some (.inl .recv) else none
+  | 'x' => some (.inl .cancel)
+  | 'z' => some (.inr "z")
+  | _ => none
+
+/-- goroutines alive in the library -/
+def alive (p : Net Int) : Nat := if p.pc = .exited then 0 else 1
+
+def applyMove (p : Net Int) (mv : String) : List (Net Int × String) :=
+  match parseMove mv with
+  | some (.inl m) => (envNext p m).map fun (q, o) => (q, showObs o)
+  | some (.inr _) => [(p, toString (alive p))]
+  | none => [(p, "bad")]
+
+def check (cap : Nat) (moves obs : List String) : String := Id.run do
+  let p0 : Net Int := Unbound.init cap
+  let mut states := closure [p0]
+  match obs with
+  | [] => return "MISMATCH no observations"
+  | o0 :: orest =>
+    let want0 := (o0.drop 2).toString
+    states := states.filter fun p => !p.panicked && lens p == want0
+    if states.isEmpty then return s!"MISMATCH at init: impl={o0} model={(closure [p0]).map lens}"
+    let mut os := orest
+    let mut idx := 0
+    for mv in moves do
+      match os with
+      | [] => return s!"MISMATCH at {idx} {mv}: implementation produced no observation (crashed?)"
+      | o :: r =>
+        os := r
+        let body := (o.drop (mv.length + 1)).toString
+        let res := (body.splitOn "[").headD ""
+        let ln := "[" ++ ((body.splitOn "[").getD 1 "")
+        let mut hitStates : List (Net Int) := []
+        if mv.startsWith "b" then
+          -- burst: the sub-moves happen back to back, the pump may or may not move in between
+          let subs := ((mv.drop 1).toString.splitOn ",").filter (· ≠ "")
+          let ress := res.splitOn ","
+          if subs.length != ress.length then
+            return s!"MISMATCH at {idx} {mv}: {ress.length} results for {subs.length} sub-moves"
+          let mut cur := states
+          for (sub, r) in subs.zip ress do
+            let cands := (reachAll cur).flatMap fun p => applyMove p sub
+            let hit := cands.filter fun (_, t) => t == r
+            if hit.isEmpty then
+              return s!"MISMATCH at {idx} {mv} ({sub}): impl={r} model allows {(cands.map (·.2)).eraseDups}"
+            cur := hit.map (·.1)
+          hitStates := cur
+        else
+          let cands := states.flatMap fun p => applyMove p mv
+          let hit := cands.filter fun (_, t) => t == res
+          if hit.isEmpty then
+            return s!"MISMATCH at {idx} {mv}: impl={res} model allows {(cands.map (·.2)).eraseDups}"
+          hitStates := hit.map (·.1)
+        let after := closure hitStates
+        let ok := after.filter fun p => !p.panicked && lens p == ln
+        if ok.isEmpty then
+          let pn := if after.any (·.panicked) then " (model can panic here)" else ""
+          return s!"MISMATCH at {idx} {mv}: impl lens={ln} model allows {(after.map lens).eraseDups}{pn}"
+        states := ok
+        idx := idx + 1
+    return "ok"
+
+def capOf (ws : List String) : Nat := Id.run do
+  let mut c := 0
+  for w in ws do
+    match w.splitOn "=" with
+    | ["cap", v] => c := v.toNat?.getD 0
+    | _ => pure ()
+  return c
+
+def run (line : String) : String :=
+  match line.splitOn " || " with
+  | [script, obsS] =>
+    match script.splitOn " | " with
+    | cfgS :: rest => check (capOf (words cfgS)) (words (rest.headD "")) (words obsS)
+    | _ => "bad-op"
+  | _ => "bad-op"
+
+def step (line : String) : String :=
+  match line.splitOn " " with
+  | idx :: rest => idx ++ " " ++ run (" ".intercalate rest)
+  | _ => "bad-op"
+
+def main : IO Unit := eachLine step
 end Golem.Driver.Unbound
